@@ -86,6 +86,21 @@ class Model:
             self.obj.threads = op["k"]
             self.flags.add("toggle")
             return
+        if kind == "edit":
+            # change a parameter of the object; from now on the reference is a fresh object with the current parameters
+            cur = dict(self.cfg)
+            c01.apply_edit(cur, self.obj, op["what"], op.get("step", 0))
+            if op["what"] == "threads":
+                self.flags.add("toggle")
+            self.cfg = cur
+            for k_, name in (("subd", "subap_diameters"), ("alts", "gs_altitudes"), ("pos", "gs_positions"), ("wl", "wfs_wavelengths"), ("lalt", "layer_altitudes"), ("r0", "layer_r0s"), ("L0", "layer_L0s")):
+                self.args[k_] = getattr(self.obj, name)
+            import copy
+            self.snap = copy.deepcopy(self.args)
+            ref, _ = c01.build(dict(cur, arg_types="lists"))
+            self.ref = ref.copy()
+            self.flags.add("edited")
+            return
         if kind == "touch":
             _ = (self.obj.n_subaps.sum(), self.obj.total_subaps, getattr(self.obj, "covariance_matrix", None) is None)
             if hasattr(self.obj, "covariance_matrix") and op.get("recon"):
@@ -189,6 +204,10 @@ def make_machine(real_fraction):
             def toggle_and_build(self, k, schedule):
                 self._do({"op": "threads", "k": k})
                 self._do({"op": "build", "regime": "fake" if real_fraction == 0 else "real", "schedule": schedule, "delays": [0, 7, 19, 3]})
+
+            @rule(what=st.sampled_from(["r0", "L0", "gs", "gs_alt", "wavelength", "layers", "subap"]), step=st.integers(0, 3))
+            def edit(self, what, step):
+                self._do({"op": "edit", "what": what, "step": step})
 
             @rule(recon=st.booleans())
             def touch(self, recon):
